@@ -136,7 +136,7 @@ func (e *stakeEp) block(absent map[int]bool, mid []stakeOp, txs []stakeOp, dt ti
 	nowNext := w.now.Add(dt).Unix()
 	// 1. signature ops in the order BeginBlock will see them
 	var absentIdx = map[int]bool{}
-	for pos, v := range w.valSet.Validators {
+	for pos, v := range w.CommitSet().Validators {
 		vi := e.valIndexByConsAddr(v.Address)
 		signed := !absent[vi]
 		if !signed {
@@ -436,7 +436,7 @@ type stakeVote struct {
 
 func (e *stakeEp) votes(absent map[int]bool) []*stakeVote {
 	var vs []*stakeVote
-	for _, v := range e.w.valSet.Validators {
+	for _, v := range e.w.CommitSet().Validators {
 		i := e.valIndexByConsAddr(v.Address)
 		vs = append(vs, &stakeVote{i, !absent[i]})
 	}
@@ -451,7 +451,7 @@ func b2i(b bool) int {
 }
 
 func newStakeEp(r *Rec, prop string, n int, label string) *stakeEp {
-	w := NewWorld(WorldOpts{NAcc: n + 1, NVal: n, SudoAccs: []int{n}})
+	w := NewWorld(WorldOpts{NAcc: n + 1, NVal: n, SudoAccs: []int{n}, CommitDelay: true})
 	e := &stakeEp{r: r, w: w, n: n, prop: prop, label: label, promoted: map[int]bool{}}
 	// small windows so that downtime and unjail deadlines are reached within an episode
 	ctx := w.KeeperCtx()
